@@ -352,8 +352,12 @@ func (p *prop) judge(k *kase, sel string, rcd *rec, res *scriptResult, o *core.O
 				eff = 512
 			}
 			cl, clErr := strconv.Atoi(refHdr.Get("Content-Length"))
-			if !(len(firstPayload(k.ops)) > eff || (clErr == nil && cl > eff)) {
-				fail("encoded-below-minimum-length", "first write %d bytes, Content-Length %q, minimum_length %d", len(firstPayload(k.ops)), refHdr.Get("Content-Length"), eff)
+			firstLen := len(firstPayload(k.ops))
+			if k.recMode > 0 {
+				firstLen = len(k.firstToEnc) // behind a recorder: the first write that REACHES the encode writer
+			}
+			if !(firstLen > eff || (clErr == nil && cl > eff)) {
+				fail("encoded-below-minimum-length", "first write %d bytes, Content-Length %q, minimum_length %d", firstLen, refHdr.Get("Content-Length"), eff)
 			}
 			if h, err := buildHandler(k.enc, k.prefer, k.min, k.m, k.mkey, true); err == nil && h.Matcher != nil {
 				// the matcher judges the response as the HANDLER left it (plus a sniffed Content-Type),
